@@ -92,7 +92,9 @@ type KeySpec struct {
 	Index    int    // distinguishes several keys of the same kind (RSA: 0..RSAKeysPerSize-1; EC: any)
 }
 
-func RSA(bits int, pss bool, index int) KeySpec { return KeySpec{Alg: "rsa", Bits: bits, PSS: pss, Index: index} }
+func RSA(bits int, pss bool, index int) KeySpec {
+	return KeySpec{Alg: "rsa", Bits: bits, PSS: pss, Index: index}
+}
 func EC(curve string, explicit bool, index int) KeySpec {
 	return KeySpec{Alg: "ec", Curve: curve, Explicit: explicit, Index: index}
 }
@@ -338,9 +340,9 @@ func (k *Key) KeyID() []byte { return SHA1.Sum(k.PublicBits()) }
 
 // SignOpts tunes the signature encoding.
 type SignOpts struct {
-	Hash            Hash
-	PSSSaltLen      int  // 0 = length of the hash
-	PSSOmitDefaults bool // encode RSASSA-PSS-params as DER demands: fields equal to their DEFAULT (sha1, mgf1SHA1, 20) omitted
+	Hash             Hash
+	PSSSaltLen       int  // 0 = length of the hash
+	PSSOmitDefaults  bool // encode RSASSA-PSS-params as DER demands: fields equal to their DEFAULT (sha1, mgf1SHA1, 20) omitted
 	RSAEncryptionOID bool // PKCS#1 v1.5: use rsaEncryption as signatureAlgorithm (common in SignerInfo) instead of shaXWithRSAEncryption
 }
 
